@@ -196,7 +196,8 @@ func phase1(sim *Simulation) (stateFn, error) {
 	}
 
 	next, err := sim.executeQueue(info.InsertAbilityPhase1, action)
-	if err == nil {
+	// the battle may have ended inside the queue: nothing follows the termination event
+	if err == nil && next != nil {
 		sim.Event.Phase1End.Emit(event.Phase1End{})
 	}
 	return next, err
